@@ -409,7 +409,7 @@ func runC02(rep *Report, tier string, seed int64) {
 		}
 	}
 	for _, api := range apis() {
-		c02ExpiredNestedCall(rep, api)
+		c02ExpiredNestedCall(rep, "C02", api)
 	}
 	// no admission limit: far more handlers in flight / far deeper chains than any plausible built-in bound
 	// (worker pools, semaphores and buffered queues are sized in the hundreds or low thousands)
